@@ -29,7 +29,7 @@ CHECKS = {
          "DESIGN.md §4 C16"),
  "C08": ("model_checking",
          "exhaustive enumeration of (newer schema, value, every subset of retained fields) states and of every sequence of <=2 unknown records at every gap, each decoded/re-encoded/decoded on the real codec and by google.protobuf",
-         "Three five-field newer schemas spanning all wire types, packed, map, oneof, optional, nested and enum fields; all 32 older schemas of each; all reduced-alphabet values; plus all unknown-record sequences of length <=2 (6 field numbers x 4 wire types x payload shapes) at every gap of a known encoding. Checks that known fields are undisturbed, unknown records are re-emitted byte-for-byte in order, and the newer reader and the reference recover the original message.",
+         "Three five-field newer schemas spanning all wire types, packed, map, oneof, optional, nested and enum fields; all 32 older schemas of each; all reduced-alphabet values; plus all unknown-record sequences of length <=2 (6 field numbers x 4 wire types x payload shapes) at every gap of a known encoding. The unknown-record alphabet includes non-minimal tag/length/value encodings. Checks that known fields are undisturbed, unknown records are re-emitted byte-for-byte in order, the size-bounded load path gives the same result, and the newer reader and the reference recover the original message.",
          "trusts the wire model's tokenizer (validated against the reference on every case)",
          "DESIGN.md §4 C08"),
  "C10": ("fault_enumeration",
@@ -44,12 +44,12 @@ CHECKS = {
          "DESIGN.md §4 C17"),
  "C07": ("model_checking",
          "explicit-state breadth-first search to a fixpoint over the complete internal state of a real message under a finite operation alphabet, against a last-writer-wins reference model",
-         "From every constructor (incl. the illegal two-member one) every operation of the alphabet (set each member to default/non-default, plain field, parse of every 0..2 member records in every order into the live instance, instance/class from_dict, copy, deepcopy, pickle, reads) is applied in every reachable state until no new state appears; in every state which_one_of, AttributeError on siblings, the wire tokens and the to_dict keys are compared with the model. Covers all finite histories over the alphabet.",
+         "From every constructor (incl. the illegal two-member one) every operation of the alphabet (set each member to default/non-default, plain field, parse of every 0..2 member records in every order into the live instance, instance/class from_dict, copy, deepcopy, pickle, reads) is applied in every reachable state until no new state appears; in every state which_one_of, AttributeError on siblings, the wire tokens and the to_dict keys are compared with the model; after every copy/deepcopy/pickle edge each member is assigned on the copy (and on the original) and the other message must be unaffected. Covers all finite histories over the alphabet.",
          "state key = full __dict__ (no abstraction); model = dict group -> last set member",
          "DESIGN.md §4 C07"),
  "C14": ("model_checking",
          "explicit-state breadth-first search to a fixpoint over the complete internal state of a real message; every observer and copy operation in every reachable state, edge invariant by differential replay",
-         "66 initial states (11 values x constructor / setattr / in-place / parse / parse-with-unknown-fields / from_dict) x 26 observers and copy, deepcopy, pickle, closed under composition: on every edge the observable projection (bytes, values, presence, oneof, element types) must equal that of a separate replay without the operation; copies must be equal, byte-identical and (deep copies) independent under 10 mutators.",
+         "66 initial states (11 values x constructor / setattr / in-place / parse / parse-with-unknown-fields / from_dict) x 26 observers and copy, deepcopy, pickle, closed under composition, plus ALL observer sequences of length <=2 (3) without state merging (hidden class-level state): on every edge the observable projection (bytes, values, presence, oneof, element types) must equal that of a separate replay without the operation; copies must be equal, byte-identical and (deep copies) independent under 10 mutators.",
          "state key = full __dict__; one message class covering nested, optional, oneof, map-of-message, repeated, Timestamp, wrapper and enum fields",
          "DESIGN.md §4 C14"),
  "C15": ("model_checking",
@@ -94,7 +94,7 @@ CHECKS = {
          "DESIGN.md §4 C03"),
  "C13": ("exploration",
          "exhaustive enumeration of package topologies: every ordered pair of the 15 package paths of depth 0..3 over {a,b} (each compiled alone), all packages referencing each other at once, and well-known types from every depth, compiled with the real plugin, imported, and checked by class identity",
-         "For every program the resolved type hint of each referring field (singular, repeated, map value, oneof member) and each rpc handler's request/reply type must BE the class generated for the target (message, nested message, enum, nested enum), a message built through the references must round-trip through the wire and JSON, and well-known types must resolve to the bundled classes.",
+         "For every program the resolved type hint of each referring field (singular, repeated, map value, oneof member) and each rpc handler's request/reply type must BE the class generated for the target (message, nested message, enum, nested enum), a message built through the references must round-trip through the wire and JSON, referrers whose only references are rpc input/output types must work through __mapping__ and real calls, and well-known types must resolve to the bundled classes.",
          "package path alphabet {a,b}; the schedule/import order is the natural one",
          "DESIGN.md §4 C13"),
  "C18": ("translation_validation",
